@@ -4,7 +4,9 @@
 //     convertCoinToEvmBornCoin, convertCoinToEvmBornERC20) the ordered list of ledger operations it performs,
 //     between which parties, and WHICH amount each uses (requested vs measured balance increase);
 //   - the shape of the keeper's ERC20 Transfer helper (before/after balance, success flag, increase, rejection);
-//   - the guards of createFunTokenFromCoin / createFunTokenFromERC20 in order and by which index;
+//   - the guards of createFunTokenFromCoin / createFunTokenFromERC20 in order and by which index, and which VALUE of the
+//     denom string (as given by the message / rewritten since) the guard, the metadata lookup and the insert of
+//     createFunTokenFromCoin use;
 //   - for every NibiruBankKeeper method wrapped in ForceGasInvariant, which accounts are re-synced into the StateDB.
 //
 // The walk is a small symbolic execution in source order: IsMadeFromCoin tests are decided for the birth being
@@ -989,7 +991,189 @@ func createGuards(fd *ast.FuncDecl) string {
 	return "[" + strings.Join(out, "; ") + "]"
 }
 
+// ---------------------------------------------------------------- CreateFunToken: which denom VALUE each step uses
+
+// createDenoms reports, for createFunTokenFromCoin, which value of the denom string its three denom-consuming steps
+// use: the BankDenom index guard, the bank metadata lookup, the insert.  VRaw = the function's string parameter as
+// the caller gave it; VRewritten = a value computed from it (the parameter after a re-assignment, another variable
+// or an inline call that mentions it); VOther = not understood.  `m.Base` of the metadata read under key X counts
+// as X (the bank stores metadata under its Base), a field of a composite literal as the expression it was built from.
+func createDenoms(fd *ast.FuncDecl) string {
+	out := func(g, m, i string) string {
+		return fmt.Sprintf("{| cd_guard := %s; cd_meta := %s; cd_insert := %s |}", g, m, i)
+	}
+	if fd == nil || fd.Body == nil || fd.Type.Params == nil {
+		return out("VOther", "VOther", "VOther")
+	}
+	param := ""
+	for _, f := range fd.Type.Params.List {
+		if id, ok := f.Type.(*ast.Ident); ok && id.Name == "string" && len(f.Names) > 0 {
+			param = f.Names[0].Name
+			break
+		}
+	}
+	if param == "" {
+		return out("VOther", "VOther", "VOther")
+	}
+	type val struct {
+		pos token.Pos
+		ver string
+	}
+	type at struct {
+		pos token.Pos
+		e   ast.Expr
+	}
+	vals := map[string][]val{param: {{fd.Body.Pos(), "VRaw"}}}
+	metaKey := map[string]at{}
+	fields := map[string]map[string]at{}
+	mentionsTracked := func(e ast.Node) bool {
+		for _, id := range idents(e) {
+			if _, ok := vals[id]; ok {
+				return true
+			}
+		}
+		return false
+	}
+	var verOf func(e ast.Expr, pos token.Pos, depth int) string
+	verOf = func(e ast.Expr, pos token.Pos, depth int) string {
+		if depth > 8 {
+			return "VOther"
+		}
+		switch x := e.(type) {
+		case *ast.ParenExpr:
+			return verOf(x.X, pos, depth+1)
+		case *ast.Ident:
+			v := "VOther"
+			for _, c := range vals[x.Name] {
+				if c.pos <= pos {
+					v = c.ver
+				}
+			}
+			return v
+		case *ast.SelectorExpr:
+			if id, ok := x.X.(*ast.Ident); ok {
+				if k, ok := metaKey[id.Name]; ok && x.Sel.Name == "Base" {
+					return verOf(k.e, k.pos, depth+1)
+				}
+				if f, ok := fields[id.Name][x.Sel.Name]; ok {
+					return verOf(f.e, f.pos, depth+1)
+				}
+			}
+			return "VOther"
+		}
+		if mentionsTracked(e) {
+			return "VRewritten"
+		}
+		return "VOther"
+	}
+	guard, meta, ins := "VOther", "VOther", "VOther"
+	ast.Inspect(fd.Body, func(n ast.Node) bool {
+		switch s := n.(type) {
+		case *ast.AssignStmt:
+			if len(s.Rhs) == 1 {
+				if c, ok := s.Rhs[0].(*ast.CallExpr); ok {
+					ch := chain(c.Fun)
+					if ch[len(ch)-1] == "GetDenomMetaData" && len(c.Args) > 0 && len(s.Lhs) > 0 {
+						if id, ok := s.Lhs[0].(*ast.Ident); ok {
+							metaKey[id.Name] = at{s.Pos(), c.Args[len(c.Args)-1]}
+						}
+					}
+				}
+			}
+			if len(s.Lhs) == len(s.Rhs) {
+				for i, l := range s.Lhs {
+					id, ok := l.(*ast.Ident)
+					if !ok {
+						continue
+					}
+					r := s.Rhs[i]
+					if cl := compositeOf(r); cl != nil {
+						fs := map[string]at{}
+						for _, el := range cl.Elts {
+							if kv, ok := el.(*ast.KeyValueExpr); ok {
+								if k, ok := kv.Key.(*ast.Ident); ok {
+									fs[k.Name] = at{s.Pos(), kv.Value}
+								}
+							}
+						}
+						fields[id.Name] = fs
+						continue
+					}
+					_, tracked := vals[id.Name]
+					if !tracked && !mentionsTracked(r) {
+						continue
+					}
+					v := "VOther"
+					if rid, ok := r.(*ast.Ident); ok {
+						v = verOf(rid, s.Pos(), 0)
+					} else if mentionsTracked(r) {
+						v = "VRewritten"
+					}
+					vals[id.Name] = append(vals[id.Name], val{s.End(), v})
+				}
+			} else if len(s.Rhs) == 1 && mentionsTracked(s.Rhs[0]) {
+				// x, err := f(denom): a value computed from the denom (the metadata lookup itself is handled above)
+				if c, ok := s.Rhs[0].(*ast.CallExpr); ok {
+					ch := chain(c.Fun)
+					if ch[len(ch)-1] != "GetDenomMetaData" {
+						if id, ok := s.Lhs[0].(*ast.Ident); ok && id.Name != "_" {
+							vals[id.Name] = append(vals[id.Name], val{s.End(), "VRewritten"})
+						}
+					}
+				}
+			}
+		case *ast.CallExpr:
+			ch := chain(s.Fun)
+			last := ch[len(ch)-1]
+			switch {
+			case last == "ExactMatch" && len(s.Args) > 0 && strings.Contains(strings.Join(ch, "."), "Indexes.BankDenom"):
+				guard = verOf(s.Args[len(s.Args)-1], s.Pos(), 0)
+			case (last == "GetDenomMetaData" || last == "HasDenomMetaData") && len(s.Args) > 0:
+				meta = verOf(s.Args[len(s.Args)-1], s.Pos(), 0)
+			case last == "SafeInsert" && len(s.Args) >= 3:
+				ins = verOf(s.Args[2], s.Pos(), 0)
+			}
+		}
+		return true
+	})
+	return out(guard, meta, ins)
+}
+
 // ---------------------------------------------------------------- NibiruBankKeeper sync table
+
+// gasCoinTest returns name when name is the package's "do these coins contain the EVM gas coin" test — recognised by
+// what it is (a bool-returning function over one argument whose body compares against EVMBankDenom and syncs
+// nothing), not by how it is called — and a string no function is called otherwise.
+func gasCoinTest(name string, funcs map[string]*ast.FuncDecl) string {
+	fd, ok := funcs[name]
+	if !ok || fd.Body == nil || fd.Type.Results == nil || len(fd.Type.Results.List) != 1 {
+		return "\x00"
+	}
+	if id, ok := fd.Type.Results.List[0].Type.(*ast.Ident); !ok || id.Name != "bool" {
+		return "\x00"
+	}
+	if fd.Type.Params == nil || fd.Type.Params.NumFields() != 1 {
+		return "\x00"
+	}
+	mentions, syncs := false, false
+	ast.Inspect(fd.Body, func(n ast.Node) bool {
+		switch x := n.(type) {
+		case *ast.Ident:
+			if x.Name == "EVMBankDenom" {
+				mentions = true
+			}
+		case *ast.CallExpr:
+			if ch := chain(x.Fun); ch[len(ch)-1] == "SyncStateDBWithAccount" {
+				syncs = true
+			}
+		}
+		return true
+	})
+	if mentions && !syncs {
+		return name
+	}
+	return "\x00"
+}
 
 func bankSync(files []File, funcs map[string]*ast.FuncDecl) string {
 	type row struct {
@@ -1124,7 +1308,7 @@ func syncedArgs(h *ast.FuncDecl, args []ast.Expr, funcs map[string]*ast.FuncDecl
 				if len(s.Args) == 2 {
 					out = append(out, resolve(s.Args[1])...)
 				}
-			case "findEtherBalanceChangeFromCoins":
+			case gasCoinTest(ch[len(ch)-1], funcs):
 				guarded = true
 			default:
 				if h2, ok := funcs[ch[len(ch)-1]]; ok && h2 != h && h2.Body != nil {
@@ -1169,7 +1353,7 @@ func syncRoles(after ast.Expr, pidx map[string]int, funcs map[string]*ast.FuncDe
 					if len(s.Args) == 2 {
 						roles = append(roles, roleOf(s.Args[1], pidx, locals, rangeOf))
 					}
-				case "findEtherBalanceChangeFromCoins":
+				case gasCoinTest(ch[len(ch)-1], funcs):
 					guarded = true
 				default:
 					// a helper that syncs (some of) its arguments, e.g. syncIfEtherChanged(ctx, coins, accs...)
@@ -1220,7 +1404,7 @@ func syncRoles(after ast.Expr, pidx map[string]int, funcs map[string]*ast.FuncDe
 				}
 			case *ast.CallExpr:
 				cc := chain(s.Fun)
-				if cc[len(cc)-1] == "findEtherBalanceChangeFromCoins" {
+				if cc[len(cc)-1] == gasCoinTest(cc[len(cc)-1], funcs) {
 					guarded = true
 				}
 			}
@@ -1322,6 +1506,8 @@ func main() {
 	fmt.Println("(** guards of the two CreateFunToken paths, in source order *)")
 	fmt.Printf("Definition current_create_coin : list cguard := %s.\n", createGuards(kf["createFunTokenFromCoin"]))
 	fmt.Printf("Definition current_create_erc20 : list cguard := %s.\n\n", createGuards(kf["createFunTokenFromERC20"]))
+	fmt.Println("(** createFunTokenFromCoin: which VALUE of the denom string (as given / rewritten) the index guard, the metadata lookup and the insert use *)")
+	fmt.Printf("Definition current_create_coin_denoms : create_denoms :=\n  %s.\n\n", createDenoms(kf["createFunTokenFromCoin"]))
 	fmt.Println("(** outside the bridge: the EVM module account is bank-blocked, and the tokenfactory admin paths honour that *)")
 	fmt.Printf("Definition current_escrow_guards : escrow_guards :=\n  %s.\n\n", escrowGuards(repo))
 	fmt.Println("(** NibiruBankKeeper: accounts re-synced into the StateDB after each wrapped bank method *)")
